@@ -125,6 +125,38 @@ class StepBudget(Exception):
     pass
 
 
+class _Raised(Exception):
+    """a raise statement met while folding a function body"""
+
+    def __init__(self, what):
+        Exception.__init__(self, what)
+        self.what = what
+
+
+class Record:
+    """An object with known attribute values, for simulated runs (read-only attributes)."""
+
+    def __init__(self, **fields):
+        self.fields = fields
+
+    def __repr__(self):
+        return "<record {}>".format(sorted(self.fields))
+
+
+class Probe:
+    """Stand-in for the result of an external call in a simulated run (PureEval.ext_hook):
+    records how it was made; every method call on it answers *answer*."""
+
+    def __init__(self, label, args, kwargs, answer=None):
+        self.label = label
+        self.args = args
+        self.kwargs = kwargs
+        self.answer = answer
+
+    def __repr__(self):
+        return "<probe {}>".format(self.label)
+
+
 class _Return(Exception):
     def __init__(self, v):
         self.v = v
@@ -253,6 +285,8 @@ class PureEval:
         self.mod = mod
         self.genv = env
         self.budget = budget
+        self.ext_hook = None      # (callee Opaque, attr, args, kwargs) -> value | NotImplemented
+        self.globals_decl = None  # names declared global in the function being simulated
 
     # -- module level -----------------------------------------------------
     def run_module(self):
@@ -334,6 +368,9 @@ class PureEval:
 
     def assign(self, target, v, env):
         if isinstance(target, ast.Name):
+            if self.globals_decl is not None and target.id in self.globals_decl and target.id not in env:
+                self.genv[target.id] = v
+                return
             env[target.id] = v
         elif isinstance(target, (ast.Tuple, ast.List)):
             if isinstance(v, Unknown):
@@ -368,7 +405,7 @@ class PureEval:
             return self.mod.path
         if name in ("enumerate", "len", "range", "tuple", "list", "dict", "str", "int",
                     "sorted", "zip", "min", "max", "sum", "set", "reversed", "any", "all",
-                    "isinstance", "frozenset"):
+                    "isinstance", "frozenset", "float", "bool"):
             return Opaque("builtin", name)
         raise Undecided("unbound name " + name)
 
@@ -479,7 +516,13 @@ class PureEval:
             if isinstance(obj, ClassRef):
                 if n.attr in obj.members:
                     return obj.members[n.attr]
+                if n.attr == "__name__":
+                    return obj.name
                 raise Undecided("class attribute " + n.attr)
+            if isinstance(obj, Record):
+                if n.attr in obj.fields:
+                    return obj.fields[n.attr]
+                raise Undecided("record attribute " + n.attr)
             if isinstance(obj, EnumVal):
                 if n.attr == "value":
                     return obj.value
@@ -577,14 +620,25 @@ class PureEval:
                 return None
             if isinstance(obj, list) and f.attr in ("append", "extend", "index", "count", "copy"):
                 return getattr(obj, f.attr)(*args)
+            if isinstance(obj, Probe):
+                return obj.answer
+            if isinstance(obj, ClassRef) and self.ext_hook is not None:
+                r = self.ext_hook(obj, f.attr, args, kwargs)
+                if r is not NotImplemented:
+                    return r
             if isinstance(obj, Opaque):
+                if self.ext_hook is not None:
+                    r = self.ext_hook(obj, f.attr, args, kwargs)
+                    if r is not NotImplemented:
+                        return r
                 return Opaque("call", (obj, f.attr, args, kwargs, n))
             raise Undecided("method {} on {}".format(f.attr, type(obj).__name__))
         fv = self.ev(f, env)
         if isinstance(fv, Opaque) and fv.kind == "builtin":
             name = fv.info
-            for a in args:
-                self._need_concrete(a)
+            if name != "isinstance":
+                for a in args:
+                    self._need_concrete(a)
             try:
                 if name == "enumerate":
                     return list(enumerate(*args))
@@ -596,6 +650,17 @@ class PureEval:
                     if len(range(*args)) > 100000:
                         raise Undecided("range too large")
                     return list(range(*args))
+                if name == "isinstance" and len(args) == 2:
+                    types = args[1] if isinstance(args[1], (tuple, list)) else [args[1]]
+                    known = {"str": str, "int": int, "float": float, "bool": bool, "list": list,
+                             "tuple": tuple, "dict": dict, "set": set}
+                    if all(isinstance(t, Opaque) and t.kind == "builtin" and t.info in known for t in types) \
+                            and not isinstance(args[0], (Opaque, Unknown, FuncRef, ClassRef, EnumVal, Probe)):
+                        return isinstance(args[0], tuple(known[t.info] for t in types))
+                    if isinstance(args[0], (FuncRef, Opaque)) and all(
+                            isinstance(t, Opaque) and t.kind == "builtin" and t.info in known for t in types):
+                        return False
+                    raise Undecided("isinstance")
                 return {"len": len, "tuple": tuple, "list": list, "dict": dict, "str": str,
                         "int": int, "sorted": sorted, "min": min, "max": max, "sum": sum,
                         "set": set, "any": any, "all": all, "frozenset": frozenset,
@@ -620,7 +685,8 @@ class PureEval:
     # -- pure function calls (for _mk_pod_hours-like helpers) -----------------
     def call_func(self, fr, args, kwargs):
         node = fr.node
-        if node.decorator_list:
+        if node.decorator_list and not (getattr(self, "allow_methods", False) and all(
+                ast.unparse(d) in ("classmethod", "staticmethod") for d in node.decorator_list)):
             raise Undecided("decorated function called at fold time: " + node.name)
         local = dict(fr.closure or {})
         params = [a.arg for a in node.args.args]
@@ -637,11 +703,16 @@ class PureEval:
                 if di < 0:
                     raise Undecided("missing argument " + p)
                 local[p] = self.ev(defaults[di], {})
+        is_gen = any(isinstance(x, (ast.Yield, ast.YieldFrom)) for x in _own_scope_nodes(node))
+        if is_gen:
+            # a generator is folded eagerly into the list of what it yields (no side effects
+            # are modelled at fold time, so laziness is not observable)
+            local["__yield__"] = []
         try:
             self.block(node.body, local)
         except _Return as r:
-            return r.v
-        return None
+            return local["__yield__"] if is_gen else r.v
+        return local["__yield__"] if is_gen else None
 
     def block(self, body, env):
         for st in body:
@@ -668,6 +739,14 @@ class PureEval:
             return
         if isinstance(st, ast.Expr):
             if isinstance(st.value, ast.Constant):
+                return
+            if isinstance(st.value, ast.Yield) and "__yield__" in env:
+                env["__yield__"].append(self.ev(st.value.value, env) if st.value.value is not None else None)
+                return
+            if isinstance(st.value, ast.YieldFrom) and "__yield__" in env:
+                v = self.ev(st.value.value, env)
+                self._need_concrete(v)
+                env["__yield__"].extend(list(v))
                 return
             self.ev(st.value, env)
             return
@@ -704,7 +783,26 @@ class PureEval:
         if isinstance(st, (ast.FunctionDef,)):
             env[st.name] = FuncRef(self.mod, st, closure=env)
             return
+        if isinstance(st, ast.Global):
+            if self.globals_decl is not None:
+                self.globals_decl.update(st.names)
+                return
+            raise Undecided("global statement")
+        if isinstance(st, ast.Raise):
+            raise _Raised(ast.unparse(st.exc) if st.exc is not None else "re-raise")
         raise Undecided("statement " + type(st).__name__)
+
+
+def _own_scope_nodes(fn):
+    out = []
+    stack = list(fn.body)
+    while stack:
+        n = stack.pop()
+        out.append(n)
+        if isinstance(n, (ast.FunctionDef, ast.AsyncFunctionDef, ast.Lambda, ast.ClassDef)):
+            continue
+        stack.extend(ast.iter_child_nodes(n))
+    return out
 
 
 def _cmp(op, a, b):
@@ -881,39 +979,93 @@ def callee_name(f):
     return _callee_name(f)
 
 
-def wrapped_pattern(model, text, rid):
-    """Fold rule.py's own wrapping expression with pattern *text* and id *rid*."""
-    rm = model.mod("ctparse.rule")
-    env = model.env("ctparse.rule")
-    f = rm.funcs.get("rule._map")
+class Registration:
+    """Outcome of one simulated registration of a pattern text (see simulate_registration)."""
+
+    def __init__(self):
+        self.compiles = []      # (pattern string, [flag names])
+        self.predicate_ids = [] # ids handed to regex_match()
+        self.before = {}        # module-level tables / counters before the run
+        self.after = {}
+        self.raised = None
+        self.returned = None
+
+
+def _rule_map_func(model):
+    from .inline import inlined_module
+    key = "_inl_rule"
+    im = getattr(model, key, None)
+    if im is None:
+        im = inlined_module(model.mod("ctparse.rule"))
+        setattr(model, key, im)
+    f = im.funcs.get("rule._map")
     if f is None:
         raise AnalysisError("anchor vanished: rule._map")
-    # the first argument of the regex.compile(...) call, traced back to its
-    # assignment inside _map
-    compile_call = None
-    for n in ast.walk(f):
-        if isinstance(n, ast.Call) and _callee_name(n.func) == "compile":
-            compile_call = n
-    if compile_call is None or not compile_call.args:
-        raise AnalysisError("anchor vanished: regex.compile call in rule._map")
-    arg0 = compile_call.args[0]
-    expr = arg0
-    if isinstance(arg0, ast.Name):
-        expr = None
-        for n in ast.walk(f):
-            if isinstance(n, ast.Assign) and len(n.targets) == 1 and \
-                    isinstance(n.targets[0], ast.Name) and n.targets[0].id == arg0.id:
-                expr = n.value
-        if expr is None:
-            raise AnalysisError("cannot trace compiled pattern expression in rule._map")
-    pname = f.args.args[0].arg
-    ev = PureEval(model, rm, env)
-    local = {pname: text, "_regex_cnt": rid}
+    return im, f
+
+
+def simulate_registration(model, text, counter=None, prefill=None):
+    """Constant-propagate rule.py's registration of one pattern *text* (the body of rule._map
+    with its private helpers inlined) on a private copy of the module state: the counter set to
+    *counter*, the tables empty or, for *prefill* = {table name: {key: value}}, pre-filled.  The
+    external regex.compile() is not run; its arguments are recorded."""
+    im, f = _rule_map_func(model)
+    base = model.env("ctparse.rule")
+    genv = dict(base)
+    tables = [k for k, v in base.items() if isinstance(v, dict) and not v]
+    for k in tables:
+        genv[k] = {}
+    for k, d in (prefill or {}).items():
+        genv[k] = dict(d)
+    counters = [k for k, v in base.items() if isinstance(v, int) and not isinstance(v, bool) and k.startswith("_")]
+    if counter is not None:
+        if "_regex_cnt" not in base:
+            raise AnalysisError("anchor vanished: ctparse.rule._regex_cnt")
+        genv["_regex_cnt"] = counter
+    res = Registration()
+    res.before = {k: (dict(genv[k]) if isinstance(genv[k], dict) else genv[k]) for k in tables + counters}
+    ev = PureEval(model, im, genv, budget=200000)
+    ev.globals_decl = set()
+
+    def hook(obj, attr, args, kwargs):
+        base_name = obj.info[1] if obj.kind == "ext" else (obj.info if obj.kind == "extmod" else None)
+        if attr == "compile" and args and isinstance(args[0], str):
+            flags = []
+            for a in list(args[1:]) + list(kwargs.values()):
+                if isinstance(a, Opaque) and a.kind == "attr":
+                    flags.append("{}.{}".format(getattr(a.info[0], "info", "?") if not isinstance(
+                        a.info[0].info, tuple) else a.info[0].info[1], a.info[1]))
+                else:
+                    flags.append(repr(a))
+            res.compiles.append((args[0], flags))
+            return Probe("compiled", args, kwargs, answer=None)
+        if base_name in ("logging", "logger") or attr in ("debug", "info", "warning"):
+            return None
+        return NotImplemented
+    ev.ext_hook = hook
+    fr = FuncRef(im, f, closure={})
+    orig_call_func = ev.call_func
+
+    def call_func(fref, args, kwargs):
+        if fref.name == "regex_match" and args:
+            res.predicate_ids.append(args[0])
+        return orig_call_func(fref, args, kwargs)
+    ev.call_func = call_func
     try:
-        v = ev.ev(expr, local)
-    except Undecided as e:
-        raise AnalysisError("cannot fold wrapped pattern expression: {}".format(e))
-    if not isinstance(v, str):
-        raise AnalysisError("wrapped pattern is not a string")
-    flags = [ast.unparse(a) for a in compile_call.args[1:]]
+        res.returned = ev.call_func(fr, [text], {})
+    except _Raised as e:
+        res.raised = e.what
+    except (Undecided, StepBudget) as e:
+        raise AnalysisError("cannot fold the pattern registration in ctparse/rule.py: {}".format(e))
+    res.after = {k: (dict(genv[k]) if isinstance(genv[k], dict) else genv[k]) for k in tables + counters}
+    return res
+
+
+def wrapped_pattern(model, text, rid):
+    """The string rule.py hands to regex.compile() for pattern *text* registered under id *rid*
+    (its own wrapping code, folded), and the names of the flags."""
+    res = simulate_registration(model, text, counter=rid)
+    if not res.compiles:
+        raise AnalysisError("anchor vanished: regex.compile call in rule._map")
+    v, flags = res.compiles[-1]
     return v, flags
